@@ -550,6 +550,14 @@ func init() {
 		Batches:     func(t string) int { return map[string]int{"quick": 5, "thorough": 20}[t] },
 		Parallel:    func(t string) int { return 5 },
 		Timeout:     func(t string) time.Duration { return 25 * time.Minute },
+		RaceUpgrade: func(report string) (string, bool) {
+			// the reload machinery of the binary (package main) is single-threaded by design: a data race
+			// in it means two reloads (or a reload and a stop) ran at the same time
+			if strings.Contains(report, "main.(*OutlineServer)") || strings.Contains(report, "main.RunOutlineServer") {
+				return "C10/reloads-not-serialised", true
+			}
+			return "", false
+		},
 		Run: func(c *vk.Ctx) {
 			for _, s := range []string{"histories", "reloads_ok", "reloads_failed", "matrix_probes", "rotated_id_probes", "final_goroutine_and_fd_audits", "large_configurations_loaded_completely", "quick_succession_updates_settled_on_the_last_file"} {
 				c.Require(s)
